@@ -20,7 +20,7 @@ def run(ctx):
     for cfg, maxread in (('MC_C19_read.cfg', 16384), ('MC_C19_read_small.cfg', 20)):
         gpath, g, r = vf.tlc_graph(ctx, 'H2Frame', cfg, 'c19read%d' % maxread)
         rr = vf.run_overlay_driver(ctx, 'pkg/http2', FILES, '^TestVFC19Read$',
-                                   env={'VF_GRAPH': gpath, 'VF_MAXREAD': str(maxread), 'VF_MUTATIONS': '2' if t == 'quick' else '40'},
+                                   env={'VF_GRAPH': gpath, 'VF_MAXREAD': str(maxread), 'VF_MUTATIONS': '2' if t == 'quick' else '150'},
                                    out_name='c19r%d.json' % maxread)
         vf.absorb(ctx, rr)
         reads.append(rr)
